@@ -850,16 +850,22 @@ func checkHelper(name string, r *run, o *obs) {
 		for k := 0; k < 4; k++ {
 			got := pZero()
 			byteOK := true
+			byteWhy := ""
 			for j := 0; j < 8; j++ {
 				bv := dst[8*(3-k)+j]
 				if bv.hi.Cmp(big.NewInt(255)) > 0 || bv.org == nil || bv.org.op != "byte" && bv.atom == nil {
 					byteOK = false
+					why := "no origin"
+					if bv.org != nil {
+						why = "origin " + bv.org.op
+					}
+					byteWhy = fmt.Sprintf("dst[%d] is not an octet (range up to %s, %s)", 8*(3-k)+j, bv.hi, why)
 				}
 				got = pAdd(got, pScale(bv.p, new(big.Int).Lsh(big1, uint(8*(7-j)))))
 			}
 			if res := pSub(got, src[k].p); !res.isZero() || !byteOK {
 				d, _ := in.explain(res)
-				o.add("byte-order", fmt.Sprintf("limb%d", k), stViolated, dst[8*(3-k)].site, fmt.Sprintf("big-endian value of dst[%d:%d] is not src[%d]: %s", 8*(3-k), 8*(3-k)+8, k, d))
+				o.add("byte-order", fmt.Sprintf("limb%d", k), stViolated, dst[8*(3-k)].site, fmt.Sprintf("big-endian value of dst[%d:%d] is not src[%d]: %s %s", 8*(3-k), 8*(3-k)+8, k, d, byteWhy))
 			} else {
 				o.ok("byte-order", fmt.Sprintf("limb%d", k), fmt.Sprintf("sum_j dst[%d+j]*256^(7-j) = src[%d] (binary.BigEndian.PutUint64 into dst[%d:%d]; bytes in [0,255] make the digits unique)", 8*(3-k), k, 8*(3-k), 8*(3-k)+8))
 			}
